@@ -187,7 +187,7 @@ var checks = map[string]*Check{
 	},
 	"C17": {
 		Legs:        []Leg{{World: "C17", Weight: 1}},
-		Probes:      []string{"admin_api_refused", "authorised_agent_call", "unauthorised_agent_call", "user_request_routed"},
+		Probes:      []string{"admin_api_refused", "authorised_agent_call", "unauthorised_agent_call", "user_request_routed", "reregistered_old_agent", "crafted_request_id"},
 		Rule:        "App Engine proxy behind the platform's request wrapper with a stub platform: 1..4 registered backends; admin API calls, agent calls (pending/request/response) and end-user requests by generated identities (anonymous, signed-in user, OAuth agent, OAuth user, admin, OAuth admin) against own / other / unknown backend and request IDs. Reference ACL table maintained from successful admin calls; store snapshot compared before/after every refused call.",
 		Assumptions: commonAssumptions,
 		RealStub: map[string]string{
